@@ -237,6 +237,15 @@ def check(an: Analysis) -> None:
                     if not is_name(a, own[i]):
                         ob.fail(f, c, f"cleanup receives {stmt_text(a) if a is not None else 'nothing'} instead of {own[i]} for parameter {cp[i] if i < len(cp) else i}")
 
+    # ------------------------------------------------------------------ C02.8 a failed enter leaves no metrics scope bound / open
+    _borrowed(an)
+
+
+def _borrowed(an: Analysis) -> None:
+    from ..engine import borrow
+    from . import c09
+
+    borrow(an, c09.check, {"C09.8": "C02.8"})
 
 
 def enter_rollback(an: Analysis, ob, must_call: str, what: str) -> None:
